@@ -262,6 +262,15 @@ def _connect(ctx: Ctx, c: Collector) -> None:
                 pr.append(f"the {nm} flag is not passed through to connect_one")
         if len(e.iters) != 1:
             pr.append("connect_one is not called once per attribute pair")
+        else:
+            # every distinct pair that was given is connected: the pairs are kept in a collection of pairs
+            # (set / list / tuple); a mapping keyed by the source (or destination) attribute keeps only one
+            # pair per key, so fanning one attribute out to several others silently drops pairs
+            src_it = unalias(T.strip(e.iters[0][2]), s, fi)
+            d = items_iter(("it", e.iters[0][1], src_it))
+            tab = unalias(d[0], s, fi) if d is not None and d[3] == "items" else None
+            if tab is not None and ((tab[0] == "call" and tab[1] == T.glob("dict")) or (tab[0] == "bag" and len(tab) > 2 and tab[2] == "dict")):
+                pr.append("the attribute pairs are kept in a dict keyed by one of their attributes: of several pairs with the same key only the last one is validated and connected")
         if not any(r == "body" for _, r in e.tries):
             pr.append("errors of single pairs are not collected")
     raises = [e for e in s.of_kind("raise") if e.term[0] == "call" and e.term[1] == T.glob(SCENERR)]
